@@ -57,6 +57,7 @@ def check(run, rule):
             else:
                 run.violated(rule, f, e.node, "%s rebinds the pixel array (%s) but keeps `_pil`: for an image loaded through PIL, aspil(), save() in a PIL format and "
                              "make_thumbnail_bitmap() go on showing the pixels as they were before" % (f.short, show(val)[:60]), kind="pil-stale-after-rebind")
+    _accessor_identity(run, rule)
     if n_rebinds < 2 or n_pil < 2:
         run.undecided(rule, None, None, "only %d rebinding sites of Image._array and %d stores of Image._pil found (>= 2 each confirmed by hand)" % (n_rebinds, n_pil),
                       kind="floor", construct="<Image representations>", file="toasty/image.py")
@@ -152,3 +153,50 @@ def saved_pixels(run, rule):
     if n < 2:
         run.undecided(rule, f, None, "fewer than two array writers (npy, fits) found in Image.save", kind="floor", construct="<saved pixels>", file="toasty/image.py")
     return n
+
+
+
+# ---------------------------------------------------------------------------------------------------------------------
+# asarray() hands out the image's own array object: fill / update / clear / flip write *through* what it returns, so a
+# copy (np.array, np.ascontiguousarray of a strided view, .copy(), astype) makes those writes vanish
+
+_COPYING = {"np.array", "np.ascontiguousarray", "np.asfortranarray", "np.copy", "np.require", "np.asarray_chkfinite", "copy.copy", "copy.deepcopy"}
+_COPY_METHODS = {"copy", "astype", "tolist", "flatten"}
+
+
+def _accessor_identity(run, rule):
+    project = run.project
+    q = IMG + ".Image.asarray"
+    if not project.has(q):
+        run.undecided(rule, None, None, "Image.asarray not found (anchor vanished)", kind="anchor", construct="Image.asarray")
+        return
+    f = project.fn(q)
+    run.note_func(f)
+    ev = sym.make_evaluator(project, IMG, [])
+    r = ev.run(f.node)
+    slf = ("sym", "self")
+    rets = [e for e in r.events if e.kind == "return"]
+    own = ("attr", slf, "_array")
+    derived = ("call", ("attr", ("sym", "np"), "asarray"), (("attr", slf, "_pil"),), ())
+
+    def leaves(t):
+        if isinstance(t, tuple) and t and t[0] == "ite":
+            return leaves(t[2]) + leaves(t[3])
+        return [t]
+    bad = und = 0
+    for e in rets:
+        for v in leaves(e.term):
+            if v in (own, derived) or (v[0] == "new" and v[2] in (own, derived)):
+                continue
+            name = show(v[1]) if v[0] == "call" else ""
+            if v[0] == "call" and (name in _COPYING or (v[1][0] == "attr" and v[1][2] in _COPY_METHODS)) and sym.contains(v, own):
+                run.violated(rule, f, e.node, "Image.asarray returns %s: for an array that is not already in that layout this is a fresh copy, so what fill / update / "
+                             "clear / flip_parity write into it never reaches the image (a cleared tile stays defined, an update is lost)" % show(v)[:70], kind="accessor-copies")
+                bad += 1
+            else:
+                run.undecided(rule, f, e.node, "Image.asarray returns %s: cannot tell that this is the stored array object" % show(v)[:70], kind="accessor-term")
+                und += 1
+    if rets and not bad and not und:
+        run.holds(rule, f, rets[0].node, "Image.asarray returns the stored array object itself (writes through it reach the image)")
+    elif not rets:
+        run.undecided(rule, f, None, "Image.asarray has no return", kind="accessor-term")
